@@ -40,13 +40,17 @@ META = {
         "the link-text subtree) shows that resolver paths on which resolution failed pass exactly one XREF_MISSING warning "
         "that names the target, all other paths pass none, the replacement node contains the original text subtree "
         "unless the implicit-text branch was taken, and no path replaces the link by a node whose only text is the "
-        "constant \"\" (constant propagation of empty strings into node constructors); in the renderer a failed path2doc lookup that gives up to "
+        "constant \"\" (constant propagation of empty strings into node constructors); a path on which make_refnode receives "
+        "the *requested* fragment (node['reftargetid']) as target id instead of an id found in a registry counts as failed "
+        "(so it needs its one warning); helpers that issue the warning themselves are summarised; in the renderer a failed path2doc lookup that gives up to "
         "render_link_url passes exactly one XREF_MISSING warning and paths that create a wrap node pass none. "
         "R4: at every make_refnode / docname_join / resolve_(any_)xref call the 'from' slot derives from refdoc (or the "
         "current docname) and the 'to' slot from reftarget or a registry docname, traced through locals, tuple unpacking and "
         "parameters. R5: every attribute the resolver subscripts on a 'myst' pending_xref is set by every constructor call "
         "with the matching refdomain; for refdomain='doc' reftarget derives from path2doc and reftargetid from the part "
-        "after '#'; relfn2path receives the part before '#'."
+        "after '#'; relfn2path receives the part before '#'; a non-doc reference keeps the whole destination (fragment "
+        "included); every href-derived value that reaches reftarget/reftargetid/relfn2path has passed normalizeLinkText "
+        "(flow-sensitive reaching definitions), because markdown-it percent-encodes hrefs and the registries are keyed by decoded text."
     ),
     "not_decided": (
         "URI correctness as a value (make_refnode/get_relative_uri, relfn2path and path2doc are Sphinx functions evaluated at "
@@ -420,7 +424,7 @@ def r2_resolver_totality(corpus: Corpus, rep: Report, tier: str):
 
 
 class PState:
-    __slots__ = ("nulls", "marks", "warns", "taint", "flags", "events", "trail", "empty", "hollow")
+    __slots__ = ("nulls", "marks", "warns", "taint", "flags", "events", "trail", "empty", "hollow", "unver")
 
     def __init__(self):
         self.nulls: dict[str, str] = {}
@@ -432,12 +436,13 @@ class PState:
         self.trail: tuple = ()
         self.empty: frozenset = frozenset()  # names bound to the constant ""
         self.hollow: frozenset = frozenset()  # names bound to nodes built from empty text only
+        self.unver: frozenset = frozenset()  # names holding the *requested* target id (node["reftargetid"]), not a registry id
 
     def copy(self) -> "PState":
         s = PState()
         s.nulls = dict(self.nulls)
         s.marks, s.warns, s.taint, s.flags, s.events, s.trail = self.marks, self.warns, self.taint, self.flags, self.events, self.trail
-        s.empty, s.hollow = self.empty, self.hollow
+        s.empty, s.hollow, s.unver = self.empty, self.hollow, self.unver
         return s
 
 
@@ -510,6 +515,25 @@ class Enumerator:
                 return True
         return False
 
+    def is_request_id(self, e: ast.AST | None, st: PState) -> bool:
+        """The fragment as the link *asked* for it (node["reftargetid"]), as opposed to an id out of a registry."""
+        pv = self.pv
+        if e is None or pv is None:
+            return False
+        if isinstance(e, ast.Name):
+            return e.id in st.unver
+        if isinstance(e, ast.Subscript) and isinstance(e.value, ast.Name) and e.value.id == pv and isinstance(e.slice, ast.Constant) and e.slice.value == "reftargetid":
+            return True
+        if isinstance(e, ast.Call) and isinstance(e.func, ast.Attribute) and e.func.attr == "get" and isinstance(e.func.value, ast.Name) and e.func.value.id == pv and e.args and isinstance(e.args[0], ast.Constant) and e.args[0].value == "reftargetid":
+            return True
+        if isinstance(e, ast.Call) and dotted(e.func) in ("cast", "typing.cast", "t.cast", "str") and e.args:
+            return self.is_request_id(e.args[-1], st)
+        if isinstance(e, ast.BoolOp):
+            return any(self.is_request_id(v, st) for v in e.values)
+        if isinstance(e, ast.IfExp):
+            return self.is_request_id(e.body, st) or self.is_request_id(e.orelse, st)
+        return False
+
     def is_hollow(self, e: ast.AST | None, st: PState) -> bool:
         """A node statically known to carry no text: built from the constant "" only (or wrapping such a node)."""
         if isinstance(e, ast.Name):
@@ -564,6 +588,9 @@ class Enumerator:
             s.hollow = s.hollow - tested
             s.empty = s.empty - tested
         for e, pol in facts(test, outcome):
+            if isinstance(e, ast.Name) and not pol and e.id in s.unver:
+                s = s.copy()
+                s.unver = s.unver - {e.id}  # a falsy requested id is "no id requested"
             # same unmodified name tested twice: remember the outcome of a nullness test
             nm, isnone = None, None
             if isinstance(e, ast.Name):
@@ -608,7 +635,15 @@ class Enumerator:
             elif self_callee(self.c, self.fi, call) is not None and _may_warn_missing(self.c, self_callee(self.c, self.fi, call), set()):
                 callee = self_callee(self.c, self.fi, call)
                 if not (self.pv and param_of_arg(callee, call, self.pv) and callee.fq in _delegates(self.c)):
-                    raise Unsupported(f"{self.fi.qualname}: helper {callee.qualname} issues XREF_MISSING itself; warning protocol not understood")
+                    # a helper that warns: summarised (it must warn the same number of times on all its paths)
+                    k = _warn_summary(self.c, callee, set())
+                    if k and in_try:
+                        raise Unsupported(f"{self.fi.qualname}: XREF_MISSING warning (via {callee.qualname}) inside a try body")
+                    s.warns = s.warns + (call,) * k
+            if self.pv is not None and self.fi.module.resolve(dotted(call.func) or "") == "sphinx.util.nodes.make_refnode":
+                tid = call.args[3] if len(call.args) > 3 and not any(isinstance(a, ast.Starred) for a in call.args[:4]) else next((kw.value for kw in call.keywords if kw.arg == "targetid"), None)
+                if self.is_request_id(tid, s):
+                    s.marks = s.marks | {f"unverified:{unparse(tid)} as targetid"}
             # sinks
             f = call.func
             if self.pv is not None and isinstance(f, ast.Attribute) and f.attr == "replace_self" and isinstance(f.value, ast.Name) and f.value.id == self.pv:
@@ -629,6 +664,11 @@ class Enumerator:
                 if isinstance(tg, ast.Name):
                     s.taint = (s.taint | {tg.id}) if tval else (s.taint - {tg.id})
                     s.hollow = (s.hollow | {tg.id}) if self.is_hollow(val, s) else (s.hollow - {tg.id})
+                    if self.is_request_id(val, s):
+                        s.unver = s.unver | {tg.id}
+                        s.events = s.events + (("unver-assign", n, False, False),)
+                    else:
+                        s.unver = s.unver - {tg.id}
                     s.empty = (s.empty | {tg.id}) if ((isinstance(val, ast.Constant) and val.value == "") or (isinstance(val, ast.Name) and val.id in s.empty)) else (s.empty - {tg.id})
                     inner = val
                     while isinstance(inner, ast.Call) and dotted(inner.func) in ("cast", "typing.cast", "t.cast") and len(inner.args) == 2:
@@ -645,18 +685,27 @@ class Enumerator:
                     else:
                         s.nulls.pop(tg.id, None)
                 elif isinstance(tg, (ast.Tuple, ast.List)):
+                    pairwise = isinstance(val, (ast.Tuple, ast.List)) and len(val.elts) == len(tg.elts) and not any(isinstance(x, ast.Starred) for x in list(val.elts) + list(tg.elts))
+                    before = s.copy()
                     for el in ast.walk(tg):
                         if isinstance(el, ast.Name):
                             s.nulls.pop(el.id, None)
                             s.taint = (s.taint | {el.id}) if tval else (s.taint - {el.id})
                             s.empty = s.empty - {el.id}
                             s.hollow = s.hollow - {el.id}
+                            s.unver = s.unver - {el.id}
+                    if pairwise:
+                        for el, v in zip(tg.elts, val.elts):
+                            if isinstance(el, ast.Name) and self.is_request_id(v, before):
+                                s.unver = s.unver | {el.id}
+                                s.events = s.events + (("unver-assign", n, False, False),)
         elif isinstance(n, ast.AugAssign) and isinstance(n.target, ast.Name):
             if self.tainted(n.value, s):
                 s.taint = s.taint | {n.target.id}
             s.nulls.pop(n.target.id, None)
             s.empty = s.empty - {n.target.id}
             s.hollow = s.hollow - {n.target.id}
+            s.unver = s.unver - {n.target.id}
         elif isinstance(n, ast.Expr) and isinstance(n.value, ast.Call):
             c = n.value
             if isinstance(c.func, ast.Attribute) and c.func.attr in ("append", "extend", "insert") and isinstance(c.func.value, ast.Name) and c.args:
@@ -735,6 +784,36 @@ def _may_warn_missing(corpus: Corpus, fi: FunctionInfo, seen: set) -> bool:
             if callee is not None and _may_warn_missing(corpus, callee, seen):
                 return True
     return False
+
+
+def _warn_summary(corpus: Corpus, fi: FunctionInfo, active: set) -> int:
+    """Number of XREF_MISSING warnings a helper issues - it must be the same on all its normal paths."""
+    memo = corpus.cache("c12-warn-summaries", dict)
+    if fi.fq in memo:
+        return memo[fi.fq]
+    if fi.fq in active or fi.is_lambda:
+        raise Unsupported(f"recursive warning helper {fi.qualname}")
+    active = active | {fi.fq}
+    cfg = get_cfg(fi)
+
+    def w(n) -> int:
+        if not isinstance(n, ast.AST):
+            return 0
+        k = 0
+        for call in node_calls(n):
+            if xref_missing_warning(call, fi):
+                k += 1
+            else:
+                callee = self_callee(corpus, fi, call)
+                if callee is not None and _may_warn_missing(corpus, callee, set()):
+                    k += _warn_summary(corpus, callee, active)
+        return k
+
+    got = cfg.counts(ENTRY, [EXIT], w).get(EXIT, {0})
+    if len(got) != 1 or 2 in got:
+        raise Unsupported(f"helper {fi.qualname} issues XREF_MISSING on some of its paths only (counts {sorted(got)}): warning protocol not understood")
+    memo[fi.fq] = next(iter(got))
+    return memo[fi.fq]
 
 
 def _delegates(corpus: Corpus) -> dict[str, tuple[FunctionInfo, str]]:
@@ -823,6 +902,13 @@ def _judge_paths(rep: Report, rule_id: str, fi: FunctionInfo, en: Enumerator, re
                 what = (
                     f"a path on which resolution failed ({cls}) passes {len(s.warns)} XREF_MISSING warning(s), expected exactly one"
                 )
+                ua = [e for e in s.events if e[0] == "unver-assign"]
+                if "unverified:" in cls and ua and not s.warns:
+                    site = fi.module.site(ua[-1][1])
+                    what = (
+                        f"`{short(ua[-1][1], 60)}` makes the fragment the link asked for the target id of the reference without it having been found in a registry, "
+                        f"and the path passes no XREF_MISSING warning: an unresolvable '#anchor' is accepted silently ({cls})"
+                    )
             else:
                 what = f"a path on which nothing failed passes {len(s.warns)} XREF_MISSING warning(s), expected none"
             rep.violation(rule_id, k, site, what, describe(cfg, s.trail))
@@ -904,7 +990,12 @@ def r3_exactly_one_warning(corpus: Corpus, rep: Report, tier: str):
 
         def cls_r(st: PState) -> str:
             gave_up = any(e[0] == "render_link_url" for e in st.events)
-            return ("failed:" + ",".join(sorted(st.marks)) + "->render_link_url") if (st.marks and gave_up) else "resolved"
+            no_sink = not any(e[0] in ("_process_wrap_node", "render_link_url", "render_link_anchor") for e in st.events)
+            if st.marks and gave_up:
+                return "failed:" + ",".join(sorted(st.marks)) + "->render_link_url"
+            if st.marks and no_sink:
+                return "failed:" + ",".join(sorted(st.marks)) + "->nothing rendered"  # R1 reports the dropped link
+            return "resolved"
 
         _judge_paths(rep, "C12.R3", fi, en3, res3, text_rule=False, failing_of=cls_r, label="renderer")
     rep.expect_min("C12.R3", 12, "outcome classes of run (2), resolve_myst_ref_doc (3), text obligations, 3 named warnings, 3 renderer handlers")
@@ -1268,6 +1359,79 @@ def r4_from_to_roles(corpus: Corpus, rep: Report, tier: str):
 # R5 writer/reader agreement
 
 
+def _ctor_keys(fi: FunctionInfo, call: ast.Call) -> dict[str, ast.expr]:
+    """Keyword arguments of a node constructor, `**name` expanded when `name` is one dict literal."""
+    keys: dict[str, ast.expr] = {}
+    for kw in call.keywords:
+        if kw.arg is not None:
+            keys[kw.arg] = kw.value
+        else:
+            if not isinstance(kw.value, ast.Name):
+                raise Unsupported(f"{fi.qualname}: `**{unparse(kw.value)}` in a node constructor")
+            defs = assignments_to(fi, kw.value.id)
+            if len(defs) != 1 or not isinstance(defs[0][1], ast.Dict) or defs[0][2] is not None:
+                raise Unsupported(f"{fi.qualname}: `**{kw.value.id}` is not a single dict literal")
+            mutated = [n for n in fi.local_nodes() if isinstance(n, ast.Subscript) and isinstance(n.value, ast.Name) and n.value.id == kw.value.id and isinstance(n.ctx, (ast.Store, ast.Del))]
+            if mutated:
+                raise Unsupported(f"{fi.qualname}: `{kw.value.id}` is modified after its literal")
+            for kk, vv in zip(defs[0][1].keys, defs[0][1].values):
+                if not (isinstance(kk, ast.Constant) and isinstance(kk.value, str)):
+                    raise Unsupported(f"{fi.qualname}: non-literal key in `{kw.value.id}`")
+                keys.setdefault(kk.value, vv)
+    return keys
+
+
+def _reaching(fi: FunctionInfo, name: str, at) -> list[tuple[ast.stmt, ast.expr, object]]:
+    """Bindings of ``name`` that reach the CFG statement ``at`` (flow-sensitive)."""
+    cfg = get_cfg(fi)
+    defs = [(cfg.stmt_of(st), val, pos) for st, val, pos in assignments_to(fi, name) if st is not None]
+    out = []
+    for d, val, pos in defs:
+        if d is at:
+            continue
+        others = [o for o, _, _ in defs if o is not d and o is not at]
+        if cfg.paths_avoiding(d, at, lambda n: any(n is o for o in others)):
+            out.append((d, val, pos))
+    return out
+
+
+def _encoding(fi: FunctionInfo, e: ast.AST | None, at, busy: frozenset = frozenset()) -> set[str]:
+    """Does the value derive from the token's href RAW (still percent-encoded by markdown-it's normalizeLink)
+    or DECoded through normalizeLinkText?  Flow-sensitive over local bindings; unknown leaves contribute nothing."""
+    if e is None or len(busy) > 12:
+        return set()
+    if isinstance(e, ast.Call) and isinstance(e.func, ast.Attribute) and e.func.attr == "normalizeLinkText":
+        return {"DEC"}
+    if isinstance(e, ast.Call) and isinstance(e.func, ast.Attribute) and e.func.attr == "attrGet" and e.args and isinstance(e.args[0], ast.Constant) and e.args[0].value == "href":
+        return {"RAW"}
+    if isinstance(e, ast.Subscript) and isinstance(e.slice, ast.Constant) and e.slice.value == "href" and isinstance(e.value, ast.Attribute) and e.value.attr == "attrs":
+        return {"RAW"}
+    if isinstance(e, ast.Name):
+        key = (e.id, id(at))
+        if key in busy:
+            return set()
+        out: set[str] = set()
+        cfg = get_cfg(fi)
+        for d, val, pos in _reaching(fi, e.id, at):
+            out |= _encoding(fi, val, d, busy | {key})
+        return out
+    if isinstance(e, ast.IfExp):
+        return _encoding(fi, e.body, at, busy) | _encoding(fi, e.orelse, at, busy)
+    if isinstance(e, ast.Compare):
+        return set()
+    out = set()
+    if isinstance(e, ast.Call):
+        subs = list(e.args) + [k.value for k in e.keywords]
+        if isinstance(e.func, ast.Attribute) and not (isinstance(e.func.value, ast.Name) and e.func.value.id in ("self", "os", "nodes")):
+            subs.append(e.func.value)
+    else:
+        subs = list(ast.iter_child_nodes(e))
+    for c in subs:
+        if isinstance(c, ast.expr):
+            out |= _encoding(fi, c, at, busy)
+    return out
+
+
 def _writers(corpus: Corpus):
     """Every `addnodes.pending_xref(...)` constructor with reftype='myst' in the package:
     (function, call, {keyword: value expr}, refdomain text)."""
@@ -1280,23 +1444,7 @@ def _writers(corpus: Corpus):
             for call in [c for c in fi.local_nodes() if isinstance(c, ast.Call)]:
                 if fi.module.resolve(dotted(call.func) or "") != "sphinx.addnodes.pending_xref":
                     continue
-                keys: dict[str, ast.expr] = {}
-                for kw in call.keywords:
-                    if kw.arg is not None:
-                        keys[kw.arg] = kw.value
-                    else:
-                        if not isinstance(kw.value, ast.Name):
-                            raise Unsupported(f"{fi.qualname}: `**{unparse(kw.value)}` in a pending_xref constructor")
-                        defs = assignments_to(fi, kw.value.id)
-                        if len(defs) != 1 or not isinstance(defs[0][1], ast.Dict) or defs[0][2] is not None:
-                            raise Unsupported(f"{fi.qualname}: `**{kw.value.id}` is not a single dict literal")
-                        mutated = [n for n in fi.local_nodes() if isinstance(n, ast.Subscript) and isinstance(n.value, ast.Name) and n.value.id == kw.value.id and isinstance(n.ctx, (ast.Store, ast.Del))]
-                        if mutated:
-                            raise Unsupported(f"{fi.qualname}: `{kw.value.id}` is modified after its literal")
-                        for kk, vv in zip(defs[0][1].keys, defs[0][1].values):
-                            if not (isinstance(kk, ast.Constant) and isinstance(kk.value, str)):
-                                raise Unsupported(f"{fi.qualname}: non-literal key in `{kw.value.id}`")
-                            keys.setdefault(kk.value, vv)
+                keys = _ctor_keys(fi, call)
                 rt = keys.get("reftype")
                 if rt is None or not isinstance(rt, ast.Constant):
                     if rt is not None:
@@ -1465,7 +1613,7 @@ def _derives_from_call(fi: FunctionInfo, e: ast.expr, attr: str, depth: int = 0)
 
 @rule("C12.R5")
 def r5_writer_reader_agreement(corpus: Corpus, rep: Report, tier: str):
-    rep.rule("C12.R5", "every attribute the resolver subscripts on a 'myst' pending_xref is set by every constructor with the matching refdomain; doc links: reftarget from path2doc, reftargetid = part after '#'")
+    rep.rule("C12.R5", "every attribute the resolver subscripts on a 'myst' pending_xref is set by every constructor with the matching refdomain; doc links: reftarget from path2doc, reftargetid = part after '#'; non-doc reftarget = whole destination; href-derived values are percent-decoded")
     sh = _shape(corpus)
     readers: dict[tuple[str, str], str] = {}
     _reader_attrs(corpus, sh.run, sh.var, "any", set(), readers)
@@ -1506,6 +1654,45 @@ def r5_writer_reader_agreement(corpus: Corpus, rep: Report, tier: str):
                     rep.ok("C12.R5", k, fi.module.site(call), unparse(v))
                 else:
                     rep.violation("C12.R5", k, fi.module.site(call), f"reftargetid=`{unparse(v)}` is {sorted(parts)}, not the part of the destination after '#': heading anchors of doc links are lost or wrong")
+    # non-doc references keep the whole destination (nothing after '#' may be dropped before the resolver sees it)
+    for fi, call, keys, dom in writers:
+        if dom == "'doc'" or not any(_encoding(fi, v, get_cfg(fi).stmt_of(call)) for v in [keys.get("reftarget")] if v is not None):
+            continue  # only where the value comes from a link token's href
+        v = keys["reftarget"]
+        k = f"{fi.fq}|pending_xref(refdomain={dom})|reftarget is the whole destination"
+        parts = _hash_part(fi, v)
+        if "?" in parts:
+            rep.error("C12.R5", f"{fi.qualname}: cannot trace reftarget=`{unparse(v)}` ({sorted(parts)})")
+        elif parts == {"WHOLE"}:
+            rep.ok("C12.R5", k, fi.module.site(call), unparse(v))
+        else:
+            rep.violation("C12.R5", k, fi.module.site(call), f"reftarget=`{unparse(v)}` is {sorted(parts)} of the destination, not the whole destination: the '#fragment' of a reference that is not an existing file is dropped before resolution (`[x](other#sec)` silently resolves to the page, or to another label)")
+    # every destination-derived attribute is percent-decoded (normalizeLinkText) before it is compared with registries
+    n_enc = 0
+    rcls = corpus.cls(SPHINX_R)
+    for m in rcls.methods.values():
+        for call in [c for c in m.local_nodes() if isinstance(c, ast.Call)]:
+            ctor = _wrap_ctor(call, m)
+            sinks: list[tuple[str, ast.expr]] = []
+            if ctor:
+                keys = _ctor_keys(m, call)
+                sinks = [(f"{ctor}|{a}", keys[a]) for a in ("reftarget", "reftargetid") if a in keys]
+            elif isinstance(call.func, ast.Attribute) and call.func.attr == "relfn2path" and call.args:
+                sinks = [("relfn2path|filename", call.args[0])]
+            at = get_cfg(m).stmt_of(call) if sinks else None
+            for label, v in sinks:
+                enc = _encoding(m, v, at)
+                if not enc:
+                    continue  # not derived from the href (e.g. a docname)
+                n_enc += 1
+                dk = unparse(keys["refdomain"]) if ctor and "refdomain" in keys else "-"
+                k = f"{m.fq}|{label}|refdomain={dk}|percent-decoded"
+                if "RAW" in enc:
+                    rep.violation("C12.R5", k, m.module.site(call), f"`{unparse(v)}` reaches {label.replace('|', '.')} from token.attrGet('href') without passing normalizeLinkText: markdown-it percent-encodes the href, so a non-ASCII heading anchor / file name ('#übersicht' -> '%C3%BCbersicht') never matches the registry it is looked up in")
+                else:
+                    rep.ok("C12.R5", k, m.module.site(call), f"{unparse(v)}: decoded")
+    if n_enc < 5:
+        rep.error("C12.R5", f"only {n_enc} href-derived attribute value(s) found in SphinxRenderer (8 on the pinned tree)")
     # relfn2path gets the part before '#'
     n_rel = 0
     for name in ("render_link_project", "render_link_unknown"):
@@ -1533,7 +1720,7 @@ def r5_writer_reader_agreement(corpus: Corpus, rep: Report, tier: str):
                     rep.violation("C12.R5", k2, fi.module.site(call), f"relfn2path resolves relative to `{unparse(b)}` ({sorted(kinds)}), not to the referencing document")
     if n_rel < 2:
         rep.error("C12.R5", f"only {n_rel} relfn2path call(s) found in the link handlers")
-    rep.expect_min("C12.R5", 18, "4 writers x required attributes + value roles + relfn2path")
+    rep.expect_min("C12.R5", 26, "4 writers x required attributes + value roles + relfn2path + decoded href values")
 
 
 RULES = [r1_classification_totality, r2_resolver_totality, r3_exactly_one_warning, r4_from_to_roles, r5_writer_reader_agreement]
@@ -1599,7 +1786,7 @@ def mutants(corpus: Corpus):
     g = rf.func("MystReferenceResolver.resolve_myst_ref_doc")
     st = _stmt_of(g, lambda n: isinstance(n, ast.Expr) and "replace_self" in unparse(n.value) and "deepcopy" in unparse(n.value))
     add("c12-unknown-doc-text-replaced-by-name", "C12.R3", rf, st, "node.replace_self(nodes.literal(ref_docname, ref_docname))", expect="text kept")
-    st = _stmt_of(g, lambda n: isinstance(n, ast.Expr) and unparse(n.value).startswith("innernode.extend(node[0].children"))
+    st = _stmt_of(g, lambda n: isinstance(n, ast.Expr) and unparse(n.value).startswith("innernode.extend(") and "children" in unparse(n.value))
     add("c12-doc-link-nested-markup-dropped", "C12.R3", rf, st, "pass", expect="text kept")
     iff = find_node(g, lambda n: isinstance(n, ast.If) and isinstance(n.test, ast.Compare) and isinstance(n.test.ops[0], ast.NotIn) and "slug" in unparse(n.test))
     w = None
@@ -1607,12 +1794,31 @@ def mutants(corpus: Corpus):
         w = [s for s in iff.body if isinstance(s, ast.Expr) and isinstance(s.value, ast.Call) and xref_missing_warning(s.value, g)]
         w = w[0] if w else None
     add("c12-missing-slug-silent", "C12.R3", rf, w, "pass", expect="miss:")
+    # revert of a572ef1: any statement that re-fills an empty implicit text (plain assignment or `if not text: text = ...`)
+    def _refills(x) -> bool:
+        if isinstance(x, ast.If):
+            tested = {nm.id for nm in ast.walk(x.test) if isinstance(nm, ast.Name)}
+            return any(isinstance(y, ast.Assign) and isinstance(y.targets[0], ast.Name) and y.targets[0].id in tested and "titles" in unparse(y.value) for y in x.body)
+        return False
+
+    fixst = _stmt_of(g, _refills)
+    if fixst is None and iff is not None:
+        cand = [x for x in iff.body if isinstance(x, ast.Assign) and "titles" in unparse(x.value)]
+        fixst = cand[0] if cand else None
+    add("c12-missing-slug-link-without-text", "C12.R3", rf, fixst, "pass", expect="replacement has text")
+    # class "an id is used without having been found in a registry" (seeded: registry absent => accepted)
     if iff is not None:
-        fix = [x for x in iff.body if isinstance(x, (ast.Assign, ast.AnnAssign, ast.AugAssign)) and "implicit_text" in unparse(x.targets[0] if isinstance(x, ast.Assign) else x.target)]
-        if fix:
-            add("c12-missing-slug-link-without-text", "C12.R3", rf, fix[0], "pass", expect="replacement has text")
+        seg = ast.get_source_segment(rf.src, iff)
+        reg = unparse(iff.test.comparators[0])
+        want = unparse(iff.test.left)
+        ind = indent_of(g, iff)
+        add("c12-slug-registry-empty-accepted", "C12.R3", rf, iff, f"if not {reg}:\n{ind}    targetid = {want}\n{ind}el" + seg, expect="unverified:")
+        unp = [x for x in iff.orelse if isinstance(x, ast.Assign) and isinstance(x.targets[0], ast.Tuple) and len(x.targets[0].elts) == 3]
+        if unp:
+            names = [unparse(e) for e in unp[0].targets[0].elts]
+            add("c12-slug-used-as-section-id", "C12.R3", rf, unp[0], f"{names[1]}, {names[2]} = {want}, {unparse(unp[0].value)}[2]", expect="unverified:")
         else:
-            out.append(("c12-missing-slug-link-without-text", "the text-less doc link (slug miss, implicit text) is still unrepaired on this tree: the rule fires on the real tree instead"))
+            out.append(("c12-slug-used-as-section-id", "slug tuple unpacking not found"))
     wcall = find_node(g, lambda n: isinstance(n, ast.Call) and xref_missing_warning(n, g) and n.args and unparse(n.args[0]) == "ref_id")
     if wcall is not None:
         add("c12-slug-warning-names-doc-only", "C12.R3", rf, wcall.args[1], 'f"local id not found in doc {ref_docname!r}"', expect="names the target")
@@ -1659,4 +1865,25 @@ def mutants(corpus: Corpus):
     kv = [k for k in c.keywords if k.arg == "reftarget"] if c is not None else []
     if kv:
         add("c12-project-reftarget-is-path", "C12.R5", sx, kv[0].value, "path_dest", expect="path2doc")
+    # class "destination-derived value compared with a registry without percent-decoding"
+    for meth, mid in (("render_link_unknown", "c12-unknown-href-not-decoded"), ("render_link_path", "c12-path-href-not-decoded")):
+        f = sx.func(f"SphinxRenderer.{meth}")
+        c = find_node(f, lambda n: isinstance(n, ast.Call) and isinstance(n.func, ast.Attribute) and n.func.attr == "normalizeLinkText" and len(n.args) == 1)
+        add(mid, "C12.R5", sx, c, ast.get_source_segment(sx.src, c.args[0]) if c is not None else "", expect="percent-decoded")
+    f = sx.func("SphinxRenderer.render_link_project")
+    st = _stmt_of(f, lambda n: isinstance(n, ast.Assign) and isinstance(n.value, ast.Call) and isinstance(n.value.func, ast.Attribute) and n.value.func.attr == "normalizeLinkText")
+    add("c12-project-href-not-decoded", "C12.R5", sx, st, "pass", expect="percent-decoded")
+    f = sx.func("SphinxRenderer.render_link_unknown")
+    c = find_node(f, lambda n: isinstance(n, ast.Call) and unparse(n.func).endswith("pending_xref") and any(k.arg == "reftargetid" for k in n.keywords))
+    if c is not None:
+        kv = [k for k in c.keywords if k.arg == "reftargetid"][0]
+        add("c12-anchor-from-raw-href", "C12.R5", sx, kv.value, '(token.attrGet("href") or "").partition("#")[2] or None', expect="percent-decoded")
+    # class "the non-file reference loses its fragment"
+    c = find_node(f, lambda n: isinstance(n, ast.Call) and unparse(n.func).endswith("pending_xref") and any(k.arg == "refdomain" and isinstance(k.value, ast.Constant) and k.value.value is None for k in n.keywords))
+    kv = [k for k in c.keywords if k.arg == "reftarget"] if c is not None else []
+    if kv:
+        add("c12-reference-fragment-dropped", "C12.R5", sx, kv[0].value, "path_dest", expect="whole destination")
+        add("c12-reference-fragment-dropped-inline", "C12.R5", sx, kv[0].value, 'destination.partition("#")[0]', expect="whole destination")
+    else:
+        out.append(("c12-reference-fragment-dropped", "non-doc pending_xref constructor not found"))
     return out
